@@ -42,7 +42,7 @@ class ScriptedIO:
 
 
 class Runner:
-    def __init__(self, ciphered, state):
+    def __init__(self, ciphered, state, pre=False):
         from dlms_cosem.clients.dlms_client import DlmsClient
         from dlms_cosem import enumerations as en
         self.ciphered = ciphered
@@ -51,10 +51,19 @@ class Runner:
         if ciphered:
             kw = dict(encryption_key=EK, authentication_key=AK, client_system_title=CT,
                       authentication_method=en.AuthenticationMechanism.HLS_GMAC)
+        if pre:
+            # a client on a pre-established association (no AARQ/AARE): everything else works as on a negotiated one
+            from dlms_cosem.connection import DlmsConnection
+            from harness.connlib import conf_obj
+            kw = dict(dlms_connection=DlmsConnection.with_pre_established_association(
+                conformance=conf_obj(0x1F0B2), max_pdu_size=500, global_encryption_key=EK if ciphered else None,
+                global_authentication_key=AK if ciphered else None, client_system_title=CT if ciphered else None,
+                meter_system_title=MT if ciphered else None, client_invocation_counter=0, meter_invocation_counter=0))
         self.client = DlmsClient(client_logical_address=16, server_logical_address=1, io_interface=self.io, **kw)
         self.conn = self.client.dlms_connection
         from dlms_cosem import state as st
-        self.conn.state.current_state = getattr(st, state)
+        if not pre:
+            self.conn.state.current_state = getattr(st, state)
         if ciphered and state != "NO_ASSOCIATION":
             self.conn.meter_system_title = MT
         self.mic = 100
@@ -111,9 +120,9 @@ class Runner:
             o = xdlms.GetResponseNormalWithError(en.DataAccessResult(int(f[2])), iip(f[1]))
         elif k == "gb":
             o = xdlms.GetResponseWithBlock(data(f[3]), int(f[2]), iip(f[1]))
-        elif k == "gl":
+        elif k in ("gl", "glF"):
             o = xdlms.GetResponseLastBlock(data(f[3]), int(f[2]), iip(f[1]))
-        elif k == "gle":
+        elif k in ("gle", "gleF"):
             o = xdlms.GetResponseLastBlockWithError(en.DataAccessResult(int(f[3])), int(f[2]), iip(f[1]))
         elif k == "sr":
             o = xdlms.SetResponseNormal(en.DataAccessResult(int(f[2])), iip(f[1]))
@@ -147,7 +156,8 @@ class Runner:
             from harness.connlib import conf_obj
             res = en.AssociationResult(int(f[1]))
             hls = f[2] == "1"
-            content = self.glo_initiate_response() if self.ciphered else xdlms.InitiateResponse(conf_obj(0x1F0B2), 500)
+            pdu = int(f[3]) if len(f) > 3 else 500
+            content = self.glo_initiate_response(pdu) if self.ciphered else xdlms.InitiateResponse(conf_obj(0x1F0B2), pdu)
             return acse.ApplicationAssociationResponse(
                 res, en.AcseServiceUserDiagnostics.NULL if int(f[1]) == 0 else en.AcseServiceUserDiagnostics.AUTHENTICATION_FAILED,
                 authentication=en.AuthenticationMechanism.HLS_GMAC if hls else None,
@@ -156,15 +166,19 @@ class Runner:
                 user_information=acse.UserInformation(content)).to_bytes()
         else:
             raise fw.MachineryError("answer token " + tok)
-        return self.protect(o.to_bytes())
+        plain = bytearray(o.to_bytes())
+        if k in ("glF", "gleF"):
+            assert plain[3] == 1
+            plain[3] = 0xFF            # A-XDR BOOLEAN TRUE: any non-zero octet
+        return self.protect(bytes(plain))
 
-    def glo_initiate_response(self):
+    def glo_initiate_response(self, pdu=500):
         from dlms_cosem import security
         from dlms_cosem.protocol import xdlms
         from harness.connlib import conf_obj
         self.mic += 1
         sc = self.conn.security_control
-        ct = security.encrypt(sc, MT, self.mic, EK, xdlms.InitiateResponse(conf_obj(0x1F0B2), 500).to_bytes(), AK)
+        ct = security.encrypt(sc, MT, self.mic, EK, xdlms.InitiateResponse(conf_obj(0x1F0B2), pdu).to_bytes(), AK)
         return xdlms.GlobalCipherInitiateResponse(sc, self.mic, ct)
 
     # ---- one operation
@@ -205,16 +219,27 @@ class Runner:
         return f"{left} | {out} | st={self.conn.state.current_state} left={pending} sent={','.join(self.io.sent)}"
 
 
+def base_tok(t):
+    f = t.split(":")
+    if f[0] == "glF":
+        f[0] = "gl"
+    if f[0] == "gleF":
+        f[0] = "gle"
+    if f[0] == "aare":
+        f = f[:3]
+    return ":".join(f)
+
+
 def run_session(d):
     lines = [f"cli init {d['state']}"]
     for name, script in d["ops"]:
         if name == "release":
-            lines.append("cli release " + " ".join(script))
+            lines.append("cli release " + " ".join(map(base_tok, script)))
         else:
-            lines.append(f"cli {name} {REQ_INV[name]} " + " ".join(script))
+            lines.append(f"cli {name} {REQ_INV[name]} " + " ".join(map(base_tok, script)))
 
     def impl():
-        r = Runner(d["ciphered"], d["state"])
+        r = Runner(d["ciphered"], d["state"], pre=bool(d.get("pre")))
         out = ["ok"]
         for name, script in d["ops"]:
             out.append(r.op(name, script))
@@ -370,6 +395,20 @@ class C19(fw.Prop):
                 yield case([("assoc", a), ("get", [f"gn:{INV0}:0901ff"]), ("release", ["rlre"]), ("get", [f"gn:{INV0}:0901ff"])], "associate",
                            "NO_ASSOCIATION")
             yield case([("release", ["rlre"]), ("assoc", ["aare:0:0"]), ("release", ["ex:1:2"]), ("release", [])], "release")
+            # block transfers whose last-block flag is written 0xFF; associations that announce no / a tiny maximum PDU size;
+            # a client on a pre-established association
+            for nb in (2, 3, 7):
+                toks = self.blocks_script(rng, pattern(50, nb), nb)
+                toks[-1] = "glF" + toks[-1][2:]
+                yield case([("get", toks), ("get", [f"gn:{INV0}:0901ff"])], "last-block-flag")
+                toks2 = toks[:-1] + [f"gleF:{INV0}:{nb}:3"]
+                yield case([("get", toks2), ("get", [f"gn:{INV0}:0901ff"])], "last-block-flag")
+            for pdu in (0, 5, 12, 13, 65535):
+                yield case([("assoc", [f"aare:0:0:{pdu}"]), ("get", [f"gn:{INV0}:0901ff"]), ("set", [f"sr:{INV0}:0"]), ("act", [f"ar:{INV0}:0"]),
+                            ("get", self.blocks_script(rng, pattern(30, 3), 3))], "max-pdu-size", "NO_ASSOCIATION")
+            for _ in range(6 if deep else 2):
+                ops = [self.good_exchange(rng) for _ in range(rng.randint(3, 12))] + [("get", self.blocks_script(rng, pattern(40, 4), 4))]
+                yield self.make_case({"ciphered": ciphered, "state": "READY", "ops": ops, "tag": "pre-established", "pre": True})
             # two clients in one process
             for ops in ([("get", [f"gn:{INV0}:0901ff"])], [("assoc", ["aare:0:0"]), ("get", [f"gb:{INV0}:1:01", f"gl:{INV0}:2:02"])]):
                 yield self.make_case({"ciphered": ciphered, "state": "NO_ASSOCIATION" if ops[0][0] == "assoc" else "READY", "ops": ops,
